@@ -14,7 +14,7 @@ import (
 	sdk "github.com/cosmos/cosmos-sdk/types"
 )
 
-func init() { props["C19"] = func(r *Rec) { runC19(r); c19ConcurrentProposals(r); c08Quorum(r) } }
+func init() { props["C19"] = func(r *Rec) { runC19(r); c19ConcurrentProposals(r); c19OnlyPassedProposals(r); c08Quorum(r) } }
 
 // encS: one token per string — empty string is "~", '%' and ' ' are percent-escaped
 func encS(s string) string {
@@ -715,6 +715,112 @@ func c19ConcurrentProposals(r *Rec) {
 					r.Fail("C19/proposal/frame", what, nil)
 				}
 			}
+		}
+	}
+}
+
+// c19OnlyPassedProposals: "only … passed proposals alter them". Network-property proposals whose ballots do NOT amount to
+// a pass by the property's own rule (quorum of the eligible voters, yes votes more than half of the votes cast) go through
+// their whole life in real blocks; the property they name must read afterwards what it read before. Ballot shapes: nobody
+// votes (with the network's quorum at 0 and at its default), ballots carrying an option outside yes/no/abstain/veto, an
+// exact tie, abstentions only.
+func c19OnlyPassedProposals(r *Rec) {
+	type shape struct {
+		name    string
+		quorum0 bool
+		opts    []govtypes.VoteOption
+	}
+	shapes := []shape{
+		{"no votes at all, quorum 0", true, nil},
+		{"no votes at all", false, nil},
+		{"one no and two ballots with an unspecified option", false, []govtypes.VoteOption{govtypes.OptionNo, 0, 0}},
+		{"three ballots with an unspecified option, quorum 0", true, []govtypes.VoteOption{0, 0, 0}},
+		{"one yes and one no", false, []govtypes.VoteOption{govtypes.OptionYes, govtypes.OptionNo}},
+		{"one yes, one abstain, one unspecified", false, []govtypes.VoteOption{govtypes.OptionYes, govtypes.OptionAbstain, 9}},
+		{"abstentions only", false, []govtypes.VoteOption{govtypes.OptionAbstain, govtypes.OptionAbstain}},
+	}
+	for si, sh := range shapes {
+		if r.Tier == "quick" && (si+int(r.Seed))%7 == 6 {
+			continue
+		}
+		label := "proposal that does not pass: " + sh.name
+		r.Mark(label)
+		w := NewWorld(WorldOpts{NAcc: 6, NVal: 1, SudoAccs: []int{5}})
+		k := w.app.CustomGovKeeper
+		ms := govkeeper.NewMsgServerImpl(k)
+		var pid uint64
+		var beforeV uint64
+		setupErr := ""
+		br := w.Block(nil, BlockOpts{Mid: func(ctx sdk.Context) {
+			// voters: accounts 0..3 and the sudo account hold the vote permission individually
+			for _, i := range []int{0, 1, 2, 3} {
+				a, ok := k.GetNetworkActorByAddress(ctx, w.addrs[i])
+				if !ok {
+					a = govtypes.NewDefaultActor(w.addrs[i])
+				}
+				if err := k.AddWhitelistPermission(ctx, a, govtypes.PermVoteSetNetworkPropertyProposal); err != nil {
+					setupErr = err.Error()
+				}
+			}
+			if sh.quorum0 {
+				if err := k.SetNetworkProperty(ctx, govtypes.VoteQuorum, govtypes.NetworkPropertyValue{StrValue: "0"}); err != nil {
+					setupErr = "quorum 0: " + err.Error()
+					return
+				}
+			}
+			cur, _ := k.GetNetworkProperty(ctx, govtypes.MinTxFee)
+			beforeV = cur.Value
+			m, err := govtypes.NewMsgSubmitProposal(w.addrs[5], "t", "d", govtypes.NewSetNetworkPropertyProposal(govtypes.MinTxFee, govtypes.NetworkPropertyValue{Value: cur.Value + 677}))
+			if err != nil {
+				setupErr = err.Error()
+				return
+			}
+			if err := withCache(ctx, func(cc sdk.Context) error {
+				res, e := ms.SubmitProposal(sdk.WrapSDKContext(cc), m)
+				if e == nil {
+					pid = res.ProposalID
+				}
+				return e
+			}); err != nil {
+				setupErr = err.Error()
+				return
+			}
+			for i, o := range sh.opts {
+				if err := withCache(ctx, func(cc sdk.Context) error {
+					_, e := ms.VoteProposal(sdk.WrapSDKContext(cc), govtypes.NewMsgVoteProposal(pid, w.addrs[i], o, sdk.ZeroDec()))
+					return e
+				}); err != nil {
+					setupErr = fmt.Sprintf("vote %d (option %d): %v", i, o, err)
+				}
+			}
+		}})
+		if br.Panicked != nil || setupErr != "" || pid == 0 {
+			r.Count("only-passed:setup-failed")
+			r.Notes = append(r.Notes, label+": set-up failed: "+setupErr+fmt.Sprint(br.Panicked))
+			continue
+		}
+		w.ApplyUpdates(br.Updates)
+		halted := false
+		for i := 0; i < 30 && !halted; i++ {
+			br := w.Block(nil, BlockOpts{Dt: 60 * time.Second})
+			if br.Panicked != nil {
+				halted = true
+				break
+			}
+			w.ApplyUpdates(br.Updates)
+		}
+		if halted {
+			r.Count("only-passed:block-panicked") // C06's business
+			continue
+		}
+		ctx := w.ReadCtx()
+		p, _ := k.GetProposal(ctx, pid)
+		now, _ := k.GetNetworkProperty(ctx, govtypes.MinTxFee)
+		r.Count("oracle:C19/only-passed")
+		r.Count(fmt.Sprintf("only-passed:%s", resName(p.Result)))
+		r.Case(fmt.Sprintf("only-passed/%d/%s", si, resName(p.Result)), true)
+		if now.Value != beforeV {
+			r.Fail("C19/proposal/changed-by-a-proposal-that-did-not-pass", fmt.Sprintf("%s: min_tx_fee was %d and reads %d after the life of proposal %d (recorded result %s, %q) - no yes majority of the votes cast", label, beforeV, now.Value, pid, resName(p.Result), p.ExecResult), nil)
 		}
 	}
 }
